@@ -229,7 +229,7 @@ def strategy():
     seed = gen.desc(alphabet="ab \nＥ́", max_runs=3, max_len=4, min_runs=0)
     op = st.fixed_dictionaries(
         {
-            "op": st.sampled_from(OPS),
+            "op": st.sampled_from(OPS + ["observe", "observe_all", "observe", "add", "slice", "join", "splice", "cwna"]),
             "i": st.integers(0, 30),
             "j": st.integers(0, 30),
             "k": st.integers(0, 500),
@@ -238,9 +238,9 @@ def strategy():
             "names": st.lists(st.sampled_from(["fg", "bg", "bold", "underline"]), max_size=2, unique=True),
         }
     )
-    return st.fixed_dictionaries({"seeds": st.lists(seed, min_size=1, max_size=3), "ops": st.lists(op, min_size=1, max_size=20)})
+    return st.fixed_dictionaries({"seeds": st.lists(seed, min_size=1, max_size=3), "ops": st.lists(op, min_size=3, max_size=30)})
 
 
 def campaign(col, tier, seed, shard, nshards):
-    n = 1200 if tier == "quick" else 48000
+    n = 3000 if tier == "quick" else 64000
     hyp_campaign(col, strategy(), run_case, max(n // nshards, 100), seed * 100 + shard)
